@@ -132,7 +132,11 @@ func installPermHook(permSeed uint64, refSalt uint64) {
 // not model. The harness then degrades, for this build, from deterministic scheduling to
 // ordinary goroutines: the race detector, the sequential-reference oracle and a deadlock
 // timeout still apply, but schedules are no longer chosen, recorded or exactly replayable.
-func nativeFallback() bool { return rewriteUnmodelled > 0 }
+func nativeFallback() bool { return rewriteUnmodelled > 0 || dynNative != "" }
+
+// dynNative is set, for the rest of the process, when a simulated run ended with the baton holder
+// asleep in a primitive the simulator does not model (simrt.Sim.NativeBlocked).
+var dynNative string
 
 // runNative executes the tasks as ordinary goroutines released together.
 func runNative(w *Workload, prep [][]*Prepared, warm []*Prepared, cfg RunCfg) *RunResult {
@@ -236,6 +240,14 @@ func runSim(w *Workload, prep [][]*Prepared, warm []*Prepared, cfg RunCfg, keepE
 	}
 	sim.Run(20 * time.Second)
 	simrt.SetPermHook(nil)
+	if sim.NativeBlocked {
+		// not a verdict: the parked goroutines are abandoned, the workload is repeated natively
+		if dynNative == "" {
+			dynNative = sim.BlockedInfo + " (last yield site " + sim.StuckSite + ")"
+			fmt.Fprintf(os.Stderr, "simrt: a task blocked in a primitive the simulator does not model: %s; continuing with ordinary goroutines (NATIVE-FALLBACK)\n", dynNative)
+		}
+		return runNative(w, prep, warm, cfg)
+	}
 	res.Sig = sim.Sig
 	res.Stats = sim.Stats
 	res.Switches = sim.Switches
@@ -362,7 +374,7 @@ func runSequential(w *Workload, prep [][]*Prepared, warm []*Prepared, order [][2
 		}
 	})
 	sim.Run(20 * time.Second)
-	dead := sim.Deadlock || sim.Capped
+	dead := sim.Deadlock || sim.Capped || sim.NativeBlocked // a single task asleep for good is a sequential deadlock
 	sim.Close()
 	if dead {
 		return nil, true
